@@ -35,10 +35,14 @@ THEOREMS = [
     "C08.render_wf",
     "C08.syntax_full",
     "C08.syntax_denotes",
+    "C08.roundtrip",
 ]
 PARTIAL = {
-    "C08.roundtrip (not proved)": "the evaluation half (evalCall (render c o) = normalize o) is not modelled; that the executed code builds the same "
-    "operation / emits the same DDL is established only by the exec-vs-invoke oracle on the real code, on every run",
+    "C08.roundtrip": "evalCall (renderOp c o) = some (normalize o) is proved for every directive except create_table (its column / constraint "
+    "argument lists are not evaluated by the model); hypotheses evalOk: dialect kwargs do not shadow the directive's own parameter names, an index "
+    "expression is not a bare string literal, a rendered server default is not the literal None.  normalize erases existing_server_default next to a "
+    "new server_default, which MSSQL's invoke reads (finding C08-N5).  That evalCall commutes with canon on opaque fragments is not proved: the "
+    "driver runs parse . evalCall on the implementation's own text (Spec.Render.evalTop) on every run",
 }
 TRUSTED = [
     "type repr, server-default / index expressions (render_ddl_sql_expr), dialect kwarg values and fk colspecs are SQLAlchemy's: "
@@ -366,9 +370,10 @@ def flush_model(ctx, pending):
     for spec, i, kind, ospecs, impl, j, as_batch, np in pending:
         ops_.append({"op": "render.text", "case": j, "asBatch": as_batch, "nonprintable": np})
         ops_.append({"op": "render.spec", "case": j, "asBatch": as_batch, "nonprintable": np, "impl": rm.cps(impl)})
+        ops_.append({"op": "render.eval", "case": j, "asBatch": as_batch, "nonprintable": np, "impl": rm.cps(impl)})
     ans = ctx.drv.ask(ops_)
     for k, (spec, i, kind, ospecs, impl, j, as_batch, np) in enumerate(pending):
-        m, s = ans[2 * k], ans[2 * k + 1]
+        m, s, ev = ans[3 * k], ans[3 * k + 1], ans[3 * k + 2]
         ctx.evaluation()
         inp = {"spec": spec, "index": i, "ospecs": ospecs, "dialect": spec["opts"].get("render_dialect")}
         if "err" in m:
@@ -385,6 +390,12 @@ def flush_model(ctx, pending):
         if s.get("holds") is not True:
             ctx.fail(inp, "syntax: rendered text is not a valid call denoting the requested names (Spec.Render.textDenotes false on the implementation's text)",
                      impl={"kind": "model-spec", "text": impl, "op_kind": kind}, tags=["model-spec"])
+        if s.get("holds") is True:
+            # evaluation half: parse the implementation's text, bind the arguments (Model.Render.evalCall), compare with normalize(op)
+            ctx.hist("model", "evalCall-checked-ops", ev.get("checked", 0))
+            if ev.get("holds") is not True:
+                ctx.fail(inp, "roundtrip: evaluating the rendered call does not give back the operation (Spec.Render.evalTop false on the implementation's text)",
+                         impl={"kind": "model-eval", "text": impl, "op_kind": kind}, tags=["model-eval"])
         if not m.get("wf"):
             ctx.note("model AST not well-formed for %s (kwarg key / name outside the word class)" % kind)
     pending.clear()
@@ -441,7 +452,7 @@ def _shrink_new(ctx, limit=3):
     for fl in ctx.failures:
         if done >= limit:
             break
-        if classify(fl) is not None or fl["impl"].get("kind") == "model-spec":
+        if classify(fl) is not None or fl["impl"].get("kind") in ("model-spec", "model-eval"):
             continue
         inp = fl["input"]
         kind, d = fl["impl"]["kind"], inp["dialect"]
